@@ -149,6 +149,10 @@ impl Check for C06 {
             }
             cell.push_str(&format!("/rank{}/last{}/o{}w{}i{}/away{}/inv{}", best, last_member as u8, vu.modes.is_oper() as u8, vu.modes.w as u8, vu.modes.i as u8, vu.away.is_some() as u8, !vu.invited.is_empty() as u8));
             params.insert("victim_cell".to_string(), cell);
+            // sometimes the victim has an open capability request (a registered client may send CAP at any time)
+            if r2.chance(1, 5) {
+                g.say(victim, ["CAP LS 302", "CAP REQ :multi-prefix", "CAP LIST"][r2.below(3)]);
+            }
             // sometimes the victim has just invited somebody to one of its channels (the invitation must outlive the
             // victim and, if the victim was the last member, the channel)
             if !vchans.is_empty() && r2.chance(1, 3) {
